@@ -103,6 +103,7 @@ pub fn scenarios(thorough: bool) -> Vec<Scenario> {
     v.push(trio_scenario("trio", if thorough { 7 } else { 6 }));
     v.push(single_scenario("single-content", content_docs(), if thorough { 4 } else { 3 }, &[Op::Reopen(0), Op::Snapshot(0)]));
     v.extend(cross_scenarios(thorough));
+    v.extend(combo_scenarios(thorough));
     v
 }
 
